@@ -115,6 +115,12 @@ class Census:
                 return (id(val), len(val), hash(repr(val)) if len(val) <= 64 else 0)
             except Exception:
                 return (id(val), len(val))
+        if isinstance(val, np.ndarray):          # a scratch buffer refilled in place
+            try:
+                flat = val.reshape(-1)
+                return (id(val), val.shape, hash(flat[:32].tobytes()), hash(flat[-32:].tobytes()))
+            except Exception:
+                return (id(val), val.shape)
         return id(val)
 
     def fingerprint(self, rng=True):
